@@ -359,9 +359,15 @@ type nackOut struct {
 }
 
 type apiCase struct {
+	// Size, Skip, Max: the configured values (what the caller asked for). Opts: the GeneratorOption
+	// list in the order it is passed to NewGeneratorInterceptor: {0, v} GeneratorSize, {1, v}
+	// GeneratorSkipLastN, {2, v} GeneratorMaxNacksPerPacket, {3, _} GeneratorInterval (the position of
+	// the interval option; appended when absent). An option kind may be absent (default) or occur
+	// several times (the last one counts). Empty (older replay files): Size, Skip, Max in that order.
 	Size     int64       `json:"size"`
 	Skip     int64       `json:"skip"`
 	Max      int64       `json:"max"`
+	Opts     [][2]int64  `json:"opts,omitempty"`
 	Sentinel int64       `json:"sentinel"` // SSRC whose NACK marks a tick; -1: blind (nothing can ever be sent)
 	Ops      [][4]int64  `json:"ops"`
 	Outs     [][]nackOut `json:"outs"`
@@ -396,13 +402,26 @@ func writeFails(mode, p, idx int64, forSSRC bool) bool {
 // runAPI drives the real interceptor. It returns ok=false when a cycle ran
 // more than one tick (the caller retries with a longer interval).
 func runAPI(in apiCase, interval time.Duration) (apiCase, bool) { //nolint:gocognit,cyclop
-	c := apiCase{Size: in.Size, Skip: in.Skip, Max: in.Max, Sentinel: in.Sentinel, Ops: in.Ops, Outs: [][]nackOut{}}
-	f, err := nack.NewGeneratorInterceptor(
-		nack.GeneratorSize(uint16(in.Size)),             //nolint:gosec
-		nack.GeneratorSkipLastN(uint16(in.Skip)),        //nolint:gosec
-		nack.GeneratorMaxNacksPerPacket(uint16(in.Max)), //nolint:gosec
-		nack.GeneratorInterval(interval),
-	)
+	c := apiCase{Size: in.Size, Skip: in.Skip, Max: in.Max, Opts: in.optList(), Sentinel: in.Sentinel, Ops: in.Ops, Outs: [][]nackOut{}}
+	var gopts []nack.GeneratorOption
+	haveInterval := false
+	for _, o := range c.Opts {
+		switch o[0] {
+		case 0:
+			gopts = append(gopts, nack.GeneratorSize(uint16(o[1]))) //nolint:gosec
+		case 1:
+			gopts = append(gopts, nack.GeneratorSkipLastN(uint16(o[1]))) //nolint:gosec
+		case 2:
+			gopts = append(gopts, nack.GeneratorMaxNacksPerPacket(uint16(o[1]))) //nolint:gosec
+		case 3:
+			gopts = append(gopts, nack.GeneratorInterval(interval))
+			haveInterval = true
+		}
+	}
+	if !haveInterval {
+		gopts = append(gopts, nack.GeneratorInterval(interval))
+	}
+	f, err := nack.NewGeneratorInterceptor(gopts...)
 	if err != nil {
 		panic(err)
 	}
@@ -558,6 +577,16 @@ func runAPI(in apiCase, interval time.Duration) (apiCase, bool) { //nolint:gocog
 	return c, true
 }
 
+// optList is the option list of the case (older replay files: the three options in the order
+// Size, SkipLastN, MaxNacksPerPacket).
+func (c apiCase) optList() [][2]int64 {
+	if len(c.Opts) > 0 {
+		return c.Opts
+	}
+
+	return [][2]int64{{0, c.Size}, {1, c.Skip}, {2, c.Max}}
+}
+
 func runAPIRetry(in apiCase) apiCase {
 	iv := 1 * time.Millisecond
 	for try := 0; try < 4; try++ {
@@ -575,6 +604,11 @@ func (c apiCase) toCase(buckets []string) cq.Case {
 	for i, op := range c.Ops {
 		ops[i] = cq.T(cq.Z(op[0]), cq.Z(op[1]), cq.Z(op[2]), cq.Z(op[3]))
 	}
+	ol := c.optList()
+	opts := make([]string, len(ol))
+	for i, o := range ol {
+		opts[i] = cq.T(cq.Z(o[0]), cq.Z(o[1]))
+	}
 	outs := make([]string, len(c.Outs))
 	triv := true
 	for i, t := range c.Outs {
@@ -589,7 +623,7 @@ func (c apiCase) toCase(buckets []string) cq.Case {
 	}
 
 	return cq.Case{
-		Coq:  cq.T(cq.T(cq.Z(c.Size), cq.Z(c.Skip), cq.Z(c.Max)), cq.L(ops), cq.L(outs)),
+		Coq:  cq.T(cq.L(opts), cq.L(ops), cq.L(outs)),
 		JSON: c, Buckets: buckets, Trivial: triv,
 	}
 }
@@ -640,19 +674,288 @@ func (c apiCase) writerBuckets() []string {
 
 const sentinelSSRC = 999
 
+// sentinelInit binds the sentinel stream and feeds it until it has a missing number outside the
+// skipLastN region; from then on every further arrival (+2) gives it a new one. Returns the last
+// number fed.
+func sentinelInit(c *apiCase) int64 {
+	add := func(k, a, b, v int64) { c.Ops = append(c.Ops, [4]int64{k, a, b, v}) }
+	add(4, sentinelSSRC, 0, 0)
+	add(0, sentinelSSRC, 0, 0)
+	sentSeq := int64(0)
+	if c.Skip > 64 { // hop (forward jumps below 2^15) instead of thousands of arrivals
+		for sentSeq < c.Skip+2 {
+			sentSeq += min(c.Skip+2-sentSeq, 30000)
+			add(0, sentinelSSRC, sentSeq, 0)
+		}
+
+		return sentSeq
+	}
+	for sentSeq < c.Skip+2 {
+		sentSeq += 2
+		add(0, sentinelSSRC, sentSeq, 0)
+	}
+
+	return sentSeq
+}
+
+// genOpts chooses how the configured values reach NewGeneratorInterceptor: the options in a
+// random order (the interval option among them), an option whose value is the default possibly
+// left out, and sometimes an earlier occurrence of an option that a later one overrides.
+func genOpts(r *rand.Rand, c *apiCase, bk map[string]bool) {
+	var opts [][2]int64
+	if c.Size != 512 || r.Intn(2) == 0 {
+		opts = append(opts, [2]int64{0, c.Size})
+	} else {
+		bk["opt-default-omitted"] = true
+	}
+	if c.Skip != 0 || r.Intn(2) == 0 {
+		opts = append(opts, [2]int64{1, c.Skip})
+	} else {
+		bk["opt-default-omitted"] = true
+	}
+	if c.Max != 0 || r.Intn(2) == 0 {
+		opts = append(opts, [2]int64{2, c.Max})
+	} else {
+		bk["opt-default-omitted"] = true
+	}
+	opts = append(opts, [2]int64{3, 0})
+	r.Shuffle(len(opts), func(i, j int) { opts[i], opts[j] = opts[j], opts[i] })
+	if r.Intn(8) == 0 { // an overridden earlier occurrence
+		k := int64(r.Intn(3))
+		last := -1
+		for i, o := range opts {
+			if o[0] == k {
+				last = i
+			}
+		}
+		if last >= 0 {
+			var v int64
+			switch k {
+			case 0:
+				v = []int64{64, 128, 512, 1024, 32768}[r.Intn(5)]
+			case 1:
+				v = []int64{0, 1, 7, 600, 40000, int64(r.Intn(65536))}[r.Intn(6)]
+			default:
+				v = int64(r.Intn(6))
+			}
+			at := r.Intn(last + 1)
+			opts = append(opts[:at], append([][2]int64{{k, v}}, opts[at:]...)...)
+			bk["opt-overridden-earlier-occurrence"] = true
+		}
+	}
+	pos := map[int64]int{}
+	for i, o := range opts {
+		pos[o[0]] = i // last occurrence
+	}
+	name := []string{"size", "skip", "max", "interval"}
+	for a := int64(0); a < 4; a++ {
+		for b := int64(0); b < 4; b++ {
+			pa, oka := pos[a]
+			pb, okb := pos[b]
+			if a != b && oka && okb && pa < pb {
+				bk["opt-order:"+name[a]+"<"+name[b]] = true
+			}
+		}
+	}
+	if ps, ok := pos[1]; ok {
+		if pz, ok2 := pos[0]; ok2 && ps < pz && c.Skip > 512 && c.Size > 512 && c.Skip < c.Size {
+			bk["opt-order:skip(>512)<size(>512)"] = true
+		}
+	}
+	c.Opts = opts
+}
+
+// genAPICycle: the history shape around the 16-bit keys of the per-number NACK counters. A limit is
+// configured. A number X of stream 1111 is lost and requested at one or more ticks; then either it
+// is recovered / ages out of the window and a tick finds NOTHING missing for the stream (the
+// stream's counts are forgotten: X + 65536 is a new packet with a full budget), or no such tick
+// runs (known finding: the stale count is inherited). The stream then advances by exactly 65536
+// (or, as a control, 65535 / 65537 / 131072) in hops: a forward jump below 2^15, after which the late
+// packets of the whole window arrive in some order, so that a tick between two hops finds nothing
+// missing (or one hole, which is requested). After the last hop X + 65536 is the only missing
+// number (possibly next to a fresh one) and max+1 ticks follow.
+func genAPICycle(r *rand.Rand) (apiCase, []string) { //nolint:gocognit,cyclop
+	bk := map[string]bool{"cycle-shape": true}
+	c := apiCase{Sentinel: sentinelSSRC}
+	c.Size = []int64{64, 64, 128}[r.Intn(3)]
+	c.Skip = []int64{0, 0, 0, 1, 3}[r.Intn(5)]
+	c.Max = []int64{1, 1, 2, 3}[r.Intn(4)]
+	genOpts(r, &c, bk)
+	bk[fmt.Sprintf("max=%d", c.Max)] = true
+	bk[fmt.Sprintf("skip=%d", c.Skip)] = true
+	bk[fmt.Sprintf("size=%d", c.Size)] = true
+	add := func(k, a, b, v int64) { c.Ops = append(c.Ops, [4]int64{k, a, b, v}) }
+	sentSeq := sentinelInit(&c)
+	tick := func() {
+		sentSeq += 2
+		add(0, sentinelSSRC, sentSeq&0xFFFF, 0)
+		add(2, 0, 0, 0)
+	}
+	const ssrc = 1111
+	add(4, ssrc, 0, 0)
+	recv := func(u int64) { add(0, ssrc, u&0xFFFF, 0) }
+	var hi int64
+	switch r.Intn(3) {
+	case 0:
+		hi = 65536 - int64(r.Intn(100)) - 1
+		bk["start-near-wrap"] = true
+	case 1:
+		hi = int64(r.Intn(3))
+	default:
+		hi = int64(r.Intn(65536))
+	}
+	recv(hi)
+	hi++
+	recv(hi)
+	x := hi + 1 // the lost number
+	hi += 2 + c.Skip
+	for u := x + 1; u <= hi; u++ {
+		recv(u)
+	}
+	t1 := 1 + r.Intn(int(c.Max)+1)
+	for i := 0; i < t1; i++ {
+		tick()
+	}
+	if int64(t1) >= c.Max {
+		bk["cycle:x-at-limit"] = true
+	} else {
+		bk["cycle:x-below-limit"] = true
+	}
+	// fill: the late packets of the window behind hi, in some order, except the holes
+	fill := func(holes map[int64]bool) {
+		var us []int64
+		for u := hi - c.Size + 1; u < hi; u++ {
+			if !holes[u] {
+				us = append(us, u)
+			}
+		}
+		switch r.Intn(3) {
+		case 0: // ascending
+		case 1:
+			for i, j := 0, len(us)-1; i < j; i, j = i+1, j-1 {
+				us[i], us[j] = us[j], us[i]
+			}
+		default:
+			r.Shuffle(len(us), func(i, j int) { us[i], us[j] = us[j], us[i] })
+		}
+		for _, u := range us {
+			recv(u)
+		}
+	}
+	reset := r.Intn(10)
+	switch {
+	case reset < 5:
+		recv(x) // recovered
+		tick()  // nothing missing
+		bk["cycle:reset-by-recovery+empty-tick"] = true
+	case reset < 8:
+		for i := int64(0); i < c.Size+c.Skip+1; i++ { // x ages out of the window, loss free
+			hi++
+			recv(hi)
+		}
+		tick()
+		bk["cycle:reset-by-ageing-out+empty-tick"] = true
+	default:
+		bk["cycle:no-empty-tick(known-finding-shape)"] = true
+	}
+	total := int64(65536)
+	switch r.Intn(8) {
+	case 0:
+		total = 65535
+		bk["cycle:advance=65535(control)"] = true
+	case 1:
+		total = 65537
+		bk["cycle:advance=65537(control)"] = true
+	case 2:
+		total = 131072
+		bk["cycle:advance=2*65536"] = true
+	default:
+		bk["cycle:advance=65536"] = true
+	}
+	// final position: x+total must be missing and outside the skipLastN region, inside the window
+	k := c.Skip + 1 + r.Int63n(c.Size-c.Skip-2)
+	target := x + total + k
+	ticksBetween := r.Intn(3) // 0 never, 1 after every hop, 2 after some
+	for hi < target {
+		rem := target - hi
+		var d int64
+		switch {
+		case rem <= 32767 && (rem <= 2*c.Size || r.Intn(2) == 0):
+			d = rem
+		case rem <= 32767:
+			d = c.Size + 1 + r.Int63n(rem-c.Size)
+		default:
+			d = min(rem-c.Size-1, 20000+r.Int63n(12767))
+		}
+		hi += d
+		recv(hi)
+		last := hi == target
+		holes := map[int64]bool{}
+		if last {
+			holes[x+total] = true
+			if r.Intn(3) == 0 { // a fresh loss next to it
+				h := hi - 1 - r.Int63n(c.Size-2)
+				holes[h] = true
+				bk["cycle:fresh-loss-next-to-alias"] = true
+			}
+		} else if r.Intn(6) == 0 {
+			holes[hi-1-r.Int63n(c.Size-2)] = true // a hole on the way: requested, prunes the counters
+			bk["cycle:hole-on-the-way"] = true
+		}
+		fill(holes)
+		if !last && (ticksBetween == 1 || (ticksBetween == 2 && r.Intn(2) == 0)) {
+			tick()
+			bk["cycle:tick-between-hops"] = true
+		}
+	}
+	for i := int64(0); i <= c.Max; i++ {
+		tick()
+	}
+	if r.Intn(2) == 0 { // recovered at last, one more tick
+		recv(x + total)
+		tick()
+	}
+	bs := make([]string, 0, len(bk))
+	for k := range bk {
+		bs = append(bs, k)
+	}
+	sort.Strings(bs)
+
+	return c, bs
+}
+
 func genAPI(r *rand.Rand) (apiCase, []string) { //nolint:gocognit,cyclop
 	bk := map[string]bool{}
 	c := apiCase{Sentinel: sentinelSSRC}
 	c.Size = []int64{64, 64, 64, 64, 128, 128, 256, 512}[r.Intn(8)]
 	c.Skip = []int64{0, 0, 0, 0, 1, 2, 3, 5, 10}[r.Intn(9)]
 	c.Max = []int64{0, 0, 0, 1, 1, 2, 3, 5}[r.Intn(8)]
+	scale := c.Size // distance scale of the traffic (window-edge jumps and late packets)
+	big := r.Intn(5) == 0
+	if big {
+		// windows above the default size 512, skipLastN on both sides of 512 and of the window size
+		c.Size = []int64{1024, 1024, 2048, 4096, 8192, 16384, 32768}[r.Intn(7)]
+		sk := []int64{0, 3, 511, 512, 513, 600, c.Size / 2, c.Size - 1, 513 + r.Int63n(c.Size-513), 513 + r.Int63n(c.Size-513)}
+		c.Skip = sk[r.Intn(len(sk))]
+		// the traffic keeps its distances small: the checkers' counter maps are association lists
+		// over the missing list (quadratic), so the missing lists of these cases stay in the low thousands;
+		// the window edges of large windows are the core sets' business
+		scale = []int64{64, 200, 400}[r.Intn(3)]
+		bk["size>512"] = true
+		if c.Skip > 512 {
+			bk["skip>512"] = true
+		}
+	}
 	if r.Intn(20) == 0 { // nothing can ever be requested: skipLastN >= size
 		c.Skip = []int64{c.Size, c.Size + 1, 32768, 65535}[r.Intn(4)]
 		c.Sentinel = -1
 		bk["skip>=size(blind)"] = true
 	}
+	genOpts(r, &c, bk)
 	bk[fmt.Sprintf("max=%d", c.Max)] = true
-	bk[fmt.Sprintf("skip=%d", c.Skip)] = true
+	if c.Skip <= 10 {
+		bk[fmt.Sprintf("skip=%d", c.Skip)] = true
+	}
 	bk[fmt.Sprintf("size=%d", c.Size)] = true
 	add := func(k, a, b, v int64) { c.Ops = append(c.Ops, [4]int64{k, a, b, v}) }
 
@@ -671,7 +974,7 @@ func genAPI(r *rand.Rand) (apiCase, []string) { //nolint:gocognit,cyclop
 		if r.Intn(6) == 0 {
 			s.mode = 2
 		}
-		s.g = newArrGen(r, c.Size, bk)
+		s.g = newArrGen(r, scale, bk)
 		if i > 0 && r.Intn(3) == 0 {
 			s.from = 1 + r.Intn(4) // bound later
 			bk["bind-late"] = true
@@ -682,19 +985,17 @@ func genAPI(r *rand.Rand) (apiCase, []string) { //nolint:gocognit,cyclop
 	var nn *arrGen
 	if noNack {
 		add(5, 7777, 0, 0)
-		nn = newArrGen(r, c.Size, map[string]bool{})
+		nn = newArrGen(r, scale, map[string]bool{})
 		bk["stream-without-nack"] = true
 	}
 	sentSeq := int64(0)
 	if c.Sentinel >= 0 {
-		add(4, sentinelSSRC, 0, 0)
-		add(0, sentinelSSRC, 0, 0)
-		for sentSeq < c.Skip+2 {
-			sentSeq += 2
-			add(0, sentinelSSRC, sentSeq, 0)
-		}
+		sentSeq = sentinelInit(&c)
 	}
 	rounds := 4 + r.Intn(8)
+	if big {
+		rounds = 3 + r.Intn(4)
+	}
 	// RTCP writer plan of every tick: in 4 of 10 cases the downstream writer returns errors
 	// (transient or persistent); the requests handed to it must be the same as with a healthy one
 	writerErrs := r.Intn(10) < 4
@@ -748,17 +1049,29 @@ func genAPI(r *rand.Rand) (apiCase, []string) { //nolint:gocognit,cyclop
 				add(0, s.ssrc, s.g.next(0), 0)
 				s.bound = false
 				s.from = rd + 1 + r.Intn(3)
-				s.g = newArrGen(r, c.Size, bk) // a re-bound stream starts afresh
+				s.g = newArrGen(r, scale, bk) // a re-bound stream starts afresh
 				bk["unbind"] = true
 			}
 			if s.bound && rd > 0 && r.Intn(20) == 0 {
 				// BindRemoteStream again without UnbindRemoteStream: the new stream starts afresh
 				// (fresh log, no inherited NACK counts)
 				add(4, s.ssrc, 0, 0)
-				s.g = newArrGen(r, c.Size, bk)
+				s.g = newArrGen(r, scale, bk)
 				bk["rebind-without-unbind"] = true
 			}
 			n := r.Intn(9)
+			if big {
+				n = r.Intn(6)
+			}
+			if big && c.Skip > 0 && rd == s.from && s.bound && r.Intn(2) == 0 {
+				// a loss region that straddles the skipLastN boundary: first packet, then a jump of
+				// skipLastN + a little, so that only the oldest few of the skipped numbers may be requested
+				add(0, s.ssrc, s.g.next(s.mode), 0)
+				d := min(c.Skip+int64(r.Intn(40)), 32767)
+				s.g.hi += d
+				add(0, s.ssrc, s.g.hi&0xFFFF, 0)
+				bk["jump-past-skipLastN"] = true
+			}
 			if r.Intn(6) == 0 {
 				n = 0
 				bk["idle-round"] = true
@@ -1041,7 +1354,11 @@ func main() {
 	}
 	jobs := make([]job, napi)
 	for i := range jobs {
-		jobs[i].in, jobs[i].bk = genAPI(r)
+		if i%8 == 5 {
+			jobs[i].in, jobs[i].bk = genAPICycle(r)
+		} else {
+			jobs[i].in, jobs[i].bk = genAPI(r)
+		}
 	}
 	res := make([]apiCase, napi)
 	var wg sync.WaitGroup
